@@ -3,8 +3,10 @@ Proof: coq/Properties/Properties_C10.v.  Tie: h_life instantiated for all 16 com
 propagate_on_container_{copy_assignment,move_assignment,swap} x is_always_equal (instrumented allocator with instance
 ids and a per-instance ledger) plus std::pmr::polymorphic_allocator over logging memory resources; two to four unequal
 instances per history; get_allocator() id and the (instance, n) of every outstanding block compared after every
-operation; the ledger checks at every deallocate that the releasing instance equals the producing one."""
-from . import core, lifecommon as lc
+operation; the ledger checks at every deallocate that the releasing instance equals the producing one.
+Dimensionality 0 (array<T, 0, A>): vlib/rank0.py -- coq/Properties/Properties_Rank0.v (C10_rank0_*), harness/h_rank0.cpp in the
+same 16 trait configurations x {select_on_container_copy_construction returns the same / a child instance} and pmr."""
+from . import core, lifecommon as lc, rank0
 
 PID = "C10"
 
@@ -24,7 +26,10 @@ def plan(tier):
 def run(tier, seed, replay=None):
     if replay:
         res = core.Result(PID, tier, seed, level="proof")
-        lc.replay(res, PID, replay)
+        if rank0.is_rank0_replay(replay):
+            rank0.replay(res, PID, replay)
+        else:
+            lc.replay(res, PID, replay)
         return res.finish()
     res, _exes = lc.run_family(
         PID, tier, seed, plan(tier),
@@ -35,6 +40,7 @@ def run(tier, seed, replay=None):
              "equal), reextent, clear; select_on_container_copy_construction returns either the same instance or a "
              "distinguishable child instance (id + 1000), pmr returns the default resource; non-trivial = at least 4 "
              "operations; distinct by hash of (configuration, history)",
-        not_exercised=["fancy pointers", "scoped_allocator_adaptor", "rank 0 and 4"],
+        not_exercised=["fancy pointers", "scoped_allocator_adaptor", "rank 4"],
         assumptions=["swap of unequal non-propagating allocators is undefined by the container requirements and is excluded"])
+    rank0.run_family(res, tier, seed, PID)     # dimensionality 0: compile probes + h_rank0 (coverage under "rank0")
     return res.finish()
